@@ -251,14 +251,14 @@ func (vc *FnVC) doAlloc(x *ssa.Alloc) {
 			}
 			key, _, ft := vc.fieldKey(et, i)
 			vc.set(key, sStore(vc.cur(key), r, vc.sorts.zero(ft)))
-			if vc.fieldInvOf(et, i) != "" {
+			if vc.fieldInvOf(et, i) == "nonnil" {
 				hasInv = true
 			}
 		}
 		if hasInv && vc.scratch == 0 {
 			if vc.inLoop(x.Block()) {
 				for i := 0; i < u.NumFields(); i++ {
-					if vc.fieldInvOf(et, i) != "" && !allocInitialises(x, i) {
+					if vc.fieldInvOf(et, i) == "nonnil" && !allocInitialises(x, i) {
 						key, _, _ := vc.fieldKey(et, i)
 						vc.assert("field-invariant", key+" initialised at allocation", "false")
 					}
@@ -307,8 +307,13 @@ func (vc *FnVC) doUnOp(x *ssa.UnOp) {
 		r := vc.setReg(x, t)
 		if a.kind != aLocal {
 			vc.assume(vc.typeFacts(r))
-			vc.assume(vc.regimeFacts(r.S, x.Type(), 0))
-			if a.kind == aField && a.fieldInv != "" && len(a.path) == 0 {
+			if a.fieldInv != "nullable" {
+				vc.assume(vc.regimeFacts(r.S, x.Type(), 0))
+			} else if isRegimeIface(x.Type()) {
+				// a nullable Element field: nil, or a valid element
+				vc.assume(sOr(sEq(sx("if.tag", r.S), "0"), vc.regimeFacts(r.S, x.Type(), 0)))
+			}
+			if a.kind == aField && a.fieldInv == "nonnil" && len(a.path) == 0 {
 				vc.assume(nonNilTerm(r.S, r.K))
 			}
 			vc.assumeTypeInv(r, false)
